@@ -478,6 +478,31 @@ def inputs_converted(ctx):
                     and st.func.attr == '_process_input':
                 n += 1
     res.ok(f'{n} converter calls examined')
+    tg = P.func('Optic.trace_generic')
+    res.saw(tg)
+    # trace_generic maps every argument that is neither a Python number nor
+    # an ndarray to None unless it has been converted first
+    to_none = any(isinstance(n_, ast.IfExp) and
+                  isinstance(n_.orelse, ast.IfExp) and
+                  unparse(n_.orelse.orelse) == 'None'
+                  for n_ in ast.walk(tg.node))
+    conv = any(isinstance(c_, ast.Call) and unparse(c_.func) == 'np.asarray'
+               and any(k_.arg == 'dtype' for k_ in c_.keywords)
+               for c_ in ast.walk(tg.node))
+    names = {unparse(e_) for n_ in ast.walk(tg.node)
+             if isinstance(n_, ast.Assign) and
+             isinstance(n_.targets[0], ast.Tuple)
+             for e_ in n_.targets[0].elts}
+    if not to_none or (conv and {'Hx', 'Hy', 'Px', 'Py'} <= names):
+        res.ok('trace_generic converts Hx, Hy, Px, Py (numpy scalars, lists) '
+               'before use')
+    else:
+        res.fail(ctx.finding(
+            'INPUTS-CONVERTED', tg, tg.node,
+            'Optic.trace_generic replaces every field / pupil argument that '
+            'is not a Python float / int or an ndarray by None: np.int64 '
+            '(np.arange loop variables), np.float32 and list Hx / Hy raise '
+            'TypeError', construct='trace_generic argument types'))
     b = P.func('BaseRays._process_input')
     res.saw(b)
     scal = [c for c in ast.walk(b.node) if isinstance(c, ast.Call) and
